@@ -109,7 +109,7 @@ def specBytes (data : Str) (impl : List String) : Option (Except String Unit) :=
       | some os => if offsetsWF os (Utf8.runeCount t) then specOk else specFail "[C11] colour spans are not ordered, non-overlapping and inside the text"
   | _ => specFail "[C11] scanner crashed or unparsable answer"
 
-def run (op : String) (args impl : List String) : Outcome :=
+def runOp (op : String) (args impl : List String) : Outcome :=
   match op, args with
   | "scan", [bs] =>
     let data := (parseNatList bs).toArray
@@ -153,5 +153,12 @@ def run (op : String) (args impl : List String) : Outcome :=
         tags := ["sgr"] ++ (if cells.length ≥ 2 ∧ os.length ≥ 3 then ["nt"] else []) ++ (if prev != "-" then ["carried"] else []) }
     | _ => { model := "?", spec := specFail "[C11] crashed" }
   | _, _ => { model := "bad-op" }
+
+/-- The harness appends `input-state-modified` when extractColor changed the state it was given. -/
+def run (op : String) (args impl : List String) : Outcome :=
+  if impl.getLast? == some "input-state-modified" then
+    let o := runOp op args impl.dropLast
+    { o with spec := specFail "[C11] extractColor modified the colour state it was given; its callers keep that state (the colour carried into the next field of --with-nth and into the next line), which then is the state at the END of the text instead of at its start" }
+  else runOp op args impl
 
 end Driver.Ansi
